@@ -251,10 +251,7 @@ class Bar(object):
         elif isinstance(value, six.string_types):
             value = NoteContainer(value)
         elif isinstance(value, list):
-            res = NoteContainer()
-            for x in value:
-                res + x
-            value = res
+            value = NoteContainer(value)
         self.bar[index][2] = value
 
     def __repr__(self):
